@@ -18,6 +18,9 @@ def multi_node_inv(rng, fail=0.0):
         roots = [n for n in names if rng.random() < 0.4]
         rng.shuffle(roots)
         apps = [rng.choice(['web', 'db', 'mon', '~web', '~a1', 'a1']) for _ in range(rng.randint(0, 3))]
+        # names shared between a node's class list and its application list (the two indexes are independent)
+        apps += [rng.choice(['sel'] + list(names)) for _ in range(rng.choice([0, 0, 1, 2]))]
+        rng.shuffle(apps)
         params = [(S('trace'), L(S('NODE')))]
         cl = ['sel'] + roots
         if style == 'plain':
@@ -106,7 +109,7 @@ def run(tier, rng, C):
                 fails.append({'key': 'inventory-index', 'severity': 'fail', 'show': c['show'], 'lines': [c['line']], 'reason': bad,
                               'model': C.describe(mobs.get(c['id'], ''))[:400], 'impl': C.describe(o)[:400], 'size': len(c['line'])})
         return fails
-    rule = ('%d inventories with 2-10 nodes over shared class graphs, overlapping class/application sets with negations, one third '
+    rule = ('%d inventories with 2-10 nodes over shared class graphs, overlapping class/application sets with negations, application names that are also class names of the same node, one third '
             'with a random subset of failing nodes (missing class, reference loop); full render through the index accessor hook; '
             'oracle: indexes = sorted exact inverse of the implementation\'s own per-node lists, nodes = discovered nodes, fails iff '
             'some node fails and names one; non-trivial = all (>= 2 nodes)' % n)
